@@ -82,6 +82,15 @@ class TrajectoryConstraintsRemover(engines.engine.Engine, CompilerMixin):
             new_kind.set_conditions_kind("DISJUNCTIVE_CONDITIONS")
             # the monitoring atoms are updated by conditional effects
             new_kind.set_effects_kind("CONDITIONAL_EFFECTS")
+            if (
+                new_kind.has_fluents_in_boolean_assignments()
+                or new_kind.has_static_fluents_in_boolean_assignments()
+            ):
+                # the regression through `f := value` turns a non-constant Boolean
+                # value into a condition, whatever operators it contains
+                new_kind.set_conditions_kind("EQUALITIES")
+                new_kind.set_conditions_kind("EXISTENTIAL_CONDITIONS")
+                new_kind.set_conditions_kind("UNIVERSAL_CONDITIONS")
         return new_kind
 
     @staticmethod
